@@ -26,7 +26,10 @@ def setup_block(mk, inst, stage, flags=('done',), stub_comm=True, M=1):
     cparams = dict(all_to_done=inst.get('all_to_done', False), mssdc_jac=inst.get('mssdc_jac', True),
                    predict_type=inst.get('predict_type'))
     lp = dict(nsweeps=inst.get('nsweeps', [1] * nl) if nl > 1 else inst.get('nsweeps', [1])[0])
-    c, trace = ctrl.make_controller(mk, n, nlevels=nl, cparams=cparams, M=M, level_params=lp)
+    # `spare`: the controller owns more steps than the block uses (a short final block): the block is the first n steps, its last step is
+    # NOT the controller's last one
+    spare = inst.get('spare', 0)
+    c, trace = ctrl.make_controller(mk, n + spare, nlevels=nl, cparams=cparams, M=M, level_params=lp)
     fresh = ctrl.Fresh(mk)
     cc = ctrl.install_arbitrary_cc(c, trace, fresh, flags)
     if stub_comm:
@@ -37,7 +40,10 @@ def setup_block(mk, inst, stage, flags=('done',), stub_comm=True, M=1):
         k = 0
     elif stage != 'IT_CHECK':
         mk.assume(k >= 1, 'iter>=1 inside an iteration')
-    MS = c.MS
+    for q, T in enumerate(c.MS[n:], start=n):  # never-activated steps of the controller: stale, finished, outside the block
+        T.status.slot, T.status.first, T.status.last, T.status.done, T.status.stage = q, False, False, True, 'DONE'
+        T.prev = c.MS[q - 1]
+    MS = c.MS[:n]
     for p, S in enumerate(MS):
         S.status.slot = p
         S.prev = MS[p - 1]
@@ -100,6 +106,8 @@ def block_instances(tier, multilevel=False):
     for n in range(1, nmax + 1):
         for d in range(0, n):
             out.append(dict(n=n, d=d))
+    # short final blocks: the controller owns more steps than the block uses
+    out += [dict(n=1, d=0, spare=2), dict(n=2, d=0, spare=1), dict(n=2, d=1, spare=1)]
     return out
 
 
@@ -585,7 +593,11 @@ class SendFull(StageContract):
     stubs = ('sweeper.compute_end_point [C02 contract as trace+frame stub]', 'Hooks callbacks [recording subclass]')
 
     def instances(self, tier):
-        return [dict(n=2, d=0, nlevels=2, who=w, level=l) for w in (0, 1) for l in (0, 1)]
+        out = [dict(n=2, d=0, nlevels=2, who=w, level=l) for w in (0, 1) for l in (0, 1)]
+        # short final block: the block's last step is not the controller's last step (and still sends nothing: nobody would receive it)
+        out += [dict(n=2, d=0, nlevels=2, who=w, level=l, spare=s) for w in (0, 1) for l in (0, 1) for s in (1, 2)]
+        out += [dict(n=1, d=0, nlevels=1, who=0, level=0, spare=2)]
+        return out
 
     def build(self, inst, mk):
         st = setup_block(mk, inst, 'IT_FINE', stub_comm=False)
